@@ -243,6 +243,23 @@ theorem unify_merge_skip_unsound : ¬ GuardUnifySound Rules.beforeMergeFix := by
   rw [merge_value_outside] at hf
   exact Bool.false_ne_true hf
 
+/-! ### 2c. The order of the parameter's variants in the union/union arm (repaired by e097c86)
+
+types: 0 'int, 1 't, 2 `[]`, 3 `'t | []` (parameter, e.g. the result of a predicate `#'t -> ('t | [])`),
+4 `'int | []` (argument). In declaration order the bare variable is offered the argument's `[]`
+before the parameter's own `[]` and is widened to `'int | []`; with the structured variants first
+it stays `'int`. (Both answers are sound; the old one typed the elements of `%iter.filter` with nil
+and, through the recursive thunk type, lost `'int` altogether.) -/
+def tOrd : Table :=
+  { types := [.integer, .variable 7, .tuple 0, .union [1, 2], .union [0, 2]],
+    tuples := [⟨none, []⟩] }
+
+theorem order_declared_widens_with_nil :
+    unifyWith Rules.beforeOrderFix 8 8 tOrd [] 3 4 = some (tOrd, some [(7, 4)]) := by decide
+
+theorem order_structured_first_keeps_int :
+    unifyWith Rules.current 8 8 tOrd [] 3 4 = some (tOrd, some [(7, 0)]) := by decide
+
 /-! ### 3. Typed entry points and their guards
 
 `wellTagged` (every tuple value `Tuple(id, fs)` has `fs[i]` in field type `i` of `id`) is
